@@ -86,7 +86,7 @@ func topFeatures(f map[string]int) []string {
 }
 
 // judgeC01 applies the C01 oracle to one outcome. Returns true when the program completed.
-func judgeC01(c *core.Ctx, eng host.Engine, kind string, src string, extra map[string]any, o host.Outcome) bool {
+func judgeC01(c *core.Ctx, eng host.Engine, kind string, src string, extra map[string]any, o host.Outcome, rerun func(string) host.Outcome) bool {
 	cls := host.Classify(o)
 	c.Inc("class_" + string(cls) + "_" + eng.String())
 	switch cls {
@@ -102,7 +102,17 @@ func judgeC01(c *core.Ctx, eng host.Engine, kind string, src string, extra map[s
 	for k, v := range extra {
 		w[k] = v
 	}
-	c.Violate(fmt.Sprintf("%s[%s] %s: %s", kind, eng, cls, errSig(o)),
+	minKey := ""
+	if rerun != nil {
+		sig := errSig(o)
+		min := minimize(src, func(cand string) bool {
+			o2 := rerun(cand)
+			return host.Classify(o2) == cls && errSig(o2) == sig
+		}, 300)
+		w["minimal_program"] = min
+		minKey = " | min " + skeletonKey(min)
+	}
+	c.Violate(fmt.Sprintf("%s[%s] %s: %s%s", kind, eng, cls, errSig(o), minKey),
 		fmt.Sprintf("accepted %s failed on engine %s with a %s error: %s", kind, eng, cls, core.Clip(firstLine(innermostMsg(o.Err)), 300)), w)
 	return false
 }
@@ -154,7 +164,9 @@ func runC01(c *core.Ctx) {
 				break
 			}
 			accepted = true
-			done := judgeC01(c, eng, "script", p.Source, map[string]any{"features": topFeatures(p.Features)}, o)
+			done := judgeC01(c, eng, "script", p.Source, map[string]any{"features": topFeatures(p.Features)}, o, func(cand string) host.Outcome {
+				return host.New().RunScript(eng, cand, nil, nil)
+			})
 			if eng == host.EngI && done {
 				c.Inc("completed")
 			}
@@ -187,10 +199,11 @@ func runC01(c *core.Ctx) {
 				noteRejection(c, d)
 				break
 			}
-			judgeC01(c, eng, "deploy", contract, nil, d)
+			judgeC01(c, eng, "deploy", contract, nil, d, nil)
 			break
 		}
 		for i, tx := range txs {
+			preLedger, preUUID := h.Ledger.Clone(), h.UUID
 			o := h.RunTx(eng, tx.Source, nil, []common.Address{host.Addr(1)}, nil)
 			c.Eval(1)
 			if isCheckerRejection(o) {
@@ -207,7 +220,17 @@ func runC01(c *core.Ctx) {
 					c.Count("feat:"+f, int64(n))
 				}
 			}
-			done := judgeC01(c, eng, "transaction", tx.Source, map[string]any{"contract": contract, "tx_index": i, "features": topFeatures(tx.Features)}, o)
+			pre := preLedger
+			done := judgeC01(c, eng, "transaction", tx.Source, map[string]any{"contract": contract, "tx_index": i, "features": topFeatures(tx.Features)}, o, func(cand string) host.Outcome {
+				// re-run the candidate from the ledger as it was before this transaction
+				h2 := host.New()
+				h2.Ledger = pre.Clone()
+				for k, v := range h.Codes {
+					h2.Codes[k] = v
+				}
+				h2.UUID = preUUID
+				return h2.RunTx(eng, cand, nil, []common.Address{host.Addr(1)}, nil)
+			})
 			if done && eng == host.EngI {
 				c.Inc("tx_completed")
 			}
